@@ -3,8 +3,9 @@
     Caco/NamesProofs.v, Caco/FileSetProofs.v or Caco/NamesGen.v.  All
     statements quantify over arbitrary byte strings. *)
 From Coq Require Import List NArith Bool String Permutation.
-From Verif Require Import Lib.Path Lib.Utf8 Caco.Names Caco.NamesProofs Caco.Match Caco.MatchProofs Caco.FileSet Caco.FileSetProofs Caco.FileSetIgnore Caco.FileSetWalk Caco.MatchComplete
+From Verif Require Import Lib.Path Lib.Utf8 Caco.Names Caco.NamesProofs Caco.Match Caco.MatchProofs Caco.FileSet Caco.FileSetProofs Caco.FileSetIgnore Caco.FileSetWalk Caco.FileSetSeq Caco.MatchComplete
   Caco.NamesGenDefs Caco.NamesGen Gen.CacoConsts.
+From Verif Require Caco.LoadSessionGen.
 Import ListNotations.
 Local Open Scope N_scope.
 
@@ -245,6 +246,43 @@ Theorem C12_git_file_prunes_siblings_refuted :
   list_all_pruning w_excl (bs "src") w_tree (bs "d") = Some [bs "d/.git"; bs "d/-x"].
 Proof. exact git_file_prunes_siblings_refuted. Qed.
 Print Assumptions C12_git_file_prunes_siblings_refuted.
+
+(** Several file sets made with one env (all the rules of the build files of
+    one Build): rule [k] of any sequence lists what it lists alone - a file
+    set's listing is a function of the tree and its own patterns only
+    (Caco/FileSetSeq.v). *)
+Theorem C12_file_sets_seq_pointwise : forall x sb tree p rs k r,
+  nth_error rs k = Some r ->
+  nth_error (file_sets_seq x sb tree p rs) k = Some (file_set x sb tree p r).
+Proof. exact file_sets_seq_pointwise. Qed.
+Print Assumptions C12_file_sets_seq_pointwise.
+
+(** Every request for a recursive listing walks ([ListPerCall]): read off the
+    current source, the Builder's env holds no listing - its fields are the
+    frozen ones and nothing but the workspace memo and the per-call hooks is
+    ever written on it - and the selection loop of [newFileSet] has the frozen
+    text (it calls the plain function [listAllFiles]). *)
+Theorem C12_listings_per_call : forall x sb tree dirs c,
+  LoadSessionGen.env_writes_frozenb = true /\ LoadSessionGen.env_layout_frozenb = true /\
+  gen_src_select = model_src_select /\
+  listings_seq ListPerCall x sb tree c dirs = map (list_all x sb tree) dirs.
+Proof. exact gen_listings_per_call. Qed.
+Print Assumptions C12_listings_per_call.
+
+(** A listing kept per walked directory that serves sub-directories by
+    filtering IN PLACE: the next request for the ancestor has lost the files
+    sorting before the sub-directory. *)
+Theorem C12_shared_listing_in_place_refuted :
+  listings_seq ListSharedInPlace sq_excl (bs "src") sq_tree [] [bs "pkg"; bs "pkg/docs"; bs "pkg"] =
+    [ Some [bs "pkg/a.txt"; bs "pkg/aa/x"; bs "pkg/docs/d1.txt"; bs "pkg/docs/d2.txt"; bs "pkg/zz/z.txt"];
+      Some [bs "pkg/docs/d1.txt"; bs "pkg/docs/d2.txt"];
+      Some [bs "pkg/docs/d1.txt"; bs "pkg/docs/d2.txt"; bs "pkg/docs/d1.txt"; bs "pkg/docs/d2.txt"; bs "pkg/zz/z.txt"] ] /\
+  listings_seq ListPerCall sq_excl (bs "src") sq_tree [] [bs "pkg"; bs "pkg/docs"; bs "pkg"] =
+    [ Some [bs "pkg/a.txt"; bs "pkg/aa/x"; bs "pkg/docs/d1.txt"; bs "pkg/docs/d2.txt"; bs "pkg/zz/z.txt"];
+      Some [bs "pkg/docs/d1.txt"; bs "pkg/docs/d2.txt"];
+      Some [bs "pkg/a.txt"; bs "pkg/aa/x"; bs "pkg/docs/d1.txt"; bs "pkg/docs/d2.txt"; bs "pkg/zz/z.txt"] ].
+Proof. exact shared_listing_in_place_refuted. Qed.
+Print Assumptions C12_shared_listing_in_place_refuted.
 
 (** ** Patterns: Go's path.Match in full *)
 
